@@ -62,7 +62,11 @@ CSV_TEXT = '''Pattern,Merchant,Category,Subcategory,Tags
 ALFA,Alfa,Food,Grocery,ta
 ALFA[amount>1000],Alfa Big,Big,,
 PAYROLL,Payroll,Income,Salary,income
+SPLIT[amount>1000],Split,Shopping,Wholesale,
+SPLIT,Split,Food,Grocery,
 '''
+DECOY_RULES = '# starter rules (not referenced by settings.yaml)\n[Example Store]\nmatch: contains("ALFA") or contains("SPLIT") or contains("PAYROLL")\ncategory: Decoy\nsubcategory: Starter\n'
+DECOY_VIEWS = '[Everything]\nfilter: total > -1000000\n'
 VIEWS_CORRUPT = '[Food]\nfilter: category == "Food"\n\n[Costly\nfilter: total > 1000\n'
 CURRENCY = {'absent': '${amount}', 'usd': '${amount}', 'eur': '\u20ac{amount}', 'zl': '{amount} zl'}
 WARNING_TEXT = {'invalid-rule-mode': 'Invalid rule_mode', 'merchants-file-not-found': 'Merchants file not found',
@@ -103,7 +107,8 @@ def materialise_budget(root, b, rnd):
         if not s['header']:
             lines.append('    has_header: false')
         if delim != ',':
-            lines.append('    delimiter: "%s"' % delim)
+            # a tab-separated source has two spellings: the keyword tab, or the character itself ("\t" in a double-quoted YAML scalar)
+            lines.append('    delimiter: "%s"' % ('\\t' if delim == 'tab' and (si + len(s['name']) + len(b['sources'])) % 2 else delim))
         srcs.append('\n'.join(lines))
         if s['status'] == 'unreadable':
             files[fn + '/'] = None              # the configured path exists, but it is a directory
@@ -119,12 +124,20 @@ def materialise_budget(root, b, rnd):
     settings = ('year: 2024\n' if b.get('year') == 'y2024' else '') + 'data_sources:\n' + '\n'.join(srcs) + '\n'
     if b.get('out') == 'custom':
         settings += 'output_dir: reports\nhtml_filename: summary.html\n'
+    # The settings NAME the rule / views files (paths relative to the budget folder).  Every other budget keeps them in the budget
+    # folder itself - with same-named DECOYS (a starter-like rules file, a catch-all view) in config/, where the files usually
+    # are: only the named files count.
+    at_root = (len(b['sources']) + int(bool(b['supp'])) + int(bool(b.get('split'))) + int(bool(b.get('xform')))) % 2 == 1 and not b.get('mfMissing')
+    mf = 'merchants.rules' if at_root else 'config/merchants.rules'
+    vfn = 'views.rules' if at_root else 'config/views.rules'
     if b['rules'] == 'rules':
-        settings += 'merchants_file: config/merchants.rules\n'
+        settings += 'merchants_file: %s\n' % mf
         if b.get('mfMissing'):
             files['config/merchant_categories.csv'] = CSV_TEXT       # a legacy file lying next to the dangling key: not to be used
         else:
-            files['config/merchants.rules'] = (XFORM_LINE + '\n' if b.get('xform') else '') + RULES_TEXT
+            files[mf] = (XFORM_LINE + '\n' if b.get('xform') else '') + RULES_TEXT
+            if at_root:
+                files['config/merchants.rules'] = DECOY_RULES
     elif b['rules'] == 'csv':
         files['config/merchant_categories.csv'] = CSV_TEXT
     if b.get('modeBogus'):
@@ -132,11 +145,13 @@ def materialise_budget(root, b, rnd):
     elif b['mode'] == 'most_specific':
         settings += 'rule_mode: most_specific\n'
     if b['views']:
-        settings += 'views_file: config/views.rules\n'
+        settings += 'views_file: %s\n' % vfn
         if b.get('vf', 'ok') == 'ok':
-            files['config/views.rules'] = VIEWS_TEXT
+            files[vfn] = VIEWS_TEXT
         elif b['vf'] == 'corrupt':
-            files['config/views.rules'] = VIEWS_CORRUPT
+            files[vfn] = VIEWS_CORRUPT
+        if at_root and b.get('vf', 'ok') != 'missing':
+            files['config/views.rules'] = DECOY_VIEWS
     if b.get('removed'):
         settings += 'home_state: WA\ntravel_labels:\n  CA: California\n'
     if b.get('cur', 'absent') != 'absent':
